@@ -105,7 +105,10 @@ def monitor(ctx, case, o, label=""):
                 ctx.violation("the import reported as invalid is not a missing import of a reachable module", inp, "a missing import", o)
         if kind != "compile" and comps:
             ctx.violation("modules were compiled although loading failed", inp, "no compile", o)
-        if not all_good and kind not in ("invalid", "parse", "load"):
+        if not all_good and kind == "load":
+            # the loader was asked to read a file its own validity test would have refused
+            ctx.violation("a missing import is reported as an input/output error, not as that import", inp, "err:invalid naming the import", o)
+        elif not all_good and kind not in ("invalid", "parse"):
             # the traversal may hit a cycle? no: toposort only runs after the traversal finished
             ctx.violation("a missing or unparsable reachable import is not reported", inp, "err:invalid / err:parse", o)
     return verdict, set(loads), set(comps)
@@ -197,7 +200,7 @@ def check(ctx):
             f2[1 + which % 2] = ('M' if k % 2 == 0 else 'B', [])
             cases.append((0, f2, []))
             ctx.count("small_with_defect")
-    for _ in range(20000 if ctx.thorough else 3000):
+    for _ in range(60000 if ctx.thorough else 3000):
         cases.append(rand_case(ctx, 8))
         ctx.count("random_upto_8")
     variants = [variant(ctx, c) for c in cases]
